@@ -28,6 +28,8 @@ def obligations(tier):
            bounds="18 SCO classes x every presence vector of the specified contributing properties x ordinary/falsy values x with/without other properties"),
         CH("end_to_end_ids", H, "end_to_end", t, mode="E1s", functions=F,
            bounds="15 constructor cases x (kwargs, reversed kwargs, parse, round trip without id); explicit id kept"),
+        CH("custom_observable_ids", H, "custom_observable", t, mode="E1s", functions=F[:1] + ["stix2.custom._custom_observable_builder"],
+           bounds="registered custom observable with 2 declared contributing properties: every presence vector x ordinary/falsy values (incl. 10^21)"),
         CH("make_json_serializable", H, "json_serializable", t, functions=F[2:3], bounds="int unbounded, bool, str <= 3, nested list/dict, None"),
     ] + canonical_bytes(tier)
 
